@@ -202,7 +202,8 @@ pub fn templates(seed: u64, n_random_each: usize, steps: usize, key_table_1100: 
         c.idle_timeout_ms = *[None, Some(0), Some(10_000)].choose(rng).unwrap();
         c.open_ignores_busy = rng.gen_bool(0.5);
         c.keep_completed_futures = rng.gen_bool(0.3);
-        c.protocol_pending_polls = *[0u8, 0, 1, 2].choose(rng).unwrap();
+        // (the protocol service stays ready at once here: the directed templates script every poll, an extra Pending
+        // would shift them; the random walks and the templates T13 below vary it)
         c
     };
     let mut push = |name: &str, cfg: LabConfig, ops: Vec<Op>, rng: &mut StdRng, out: &mut Vec<Scenario>| {
@@ -406,6 +407,22 @@ pub fn templates(seed: u64, n_random_each: usize, steps: usize, key_table_1100: 
         c.with_pool = false;
         let ops = exchange(0, false, 0, 0);
         push("without-pool", c, ops, &mut rng, &mut out);
+
+        // T13: the protocol service is not ready when the transport has connected; the request is cancelled, or served
+        //      by a released connection, exactly in that window (C14: the attempt must be continued / dropped as configured)
+        for pending in [1u8, 2] {
+            let mut c = cfgs(&mut rng);
+            c.protocol_pending_polls = pending;
+            let ops = vec![Op::Issue { origin: 0, h2: false }, Op::Poll(0), Op::DialOk(0), Op::Poll(0), Op::Cancel(0), Op::Bg, Op::Bg];
+            push("cancel-while-protocol-not-ready", c, ops, &mut rng, &mut out);
+            let mut c = cfgs(&mut rng);
+            c.protocol_pending_polls = pending;
+            c.max_idle_per_host = 32;
+            // r0 is served (three polls get it past the protocol's readiness), r1 dials and is stuck before the handshake
+            let mut ops = vec![Op::Issue { origin: 0, h2: false }, Op::Poll(0), Op::DialOk(0), Op::Poll(0), Op::Poll(0), Op::Poll(0), Op::HsOk(0), Op::Poll(0)];
+            ops.extend([Op::Issue { origin: 0, h2: false }, Op::Poll(1), Op::DialOk(1), Op::Poll(1), Op::Respond(0), Op::Poll(0), Op::BodyDone(0), Op::Bg, Op::Bg, Op::Poll(1), Op::Bg]);
+            push("preempted-while-protocol-not-ready", c, ops, &mut rng, &mut out);
+        }
 
         // T12: cancel while own dial outstanding, with and without continuation
         let c = cfgs(&mut rng);
